@@ -46,12 +46,26 @@ class GroupSX:
 
     # ------------------------------------------------------------------
     def prom_inputs(self):
-        """promoted names of the inputs that are not fed by a component output (the group's free inputs)"""
+        """the group's free inputs {name: [absolute names]}: promoted names of the outputs of explicit IndepVarComps, and
+        promoted names of inputs fed by the automatic IndepVarComp"""
         out = {}
+        for comp in self.comps:
+            if isinstance(comp, om.IndepVarComp) and not comp.pathname.startswith("_auto_ivc"):
+                for n in comp._var_rel_names["output"]:
+                    a = comp.pathname + "." + n
+                    out.setdefault(self.abs2prom_out[a], []).append(a)
         for a, src in self.conn.items():
-            if src.startswith("_auto_ivc.") or self._is_ivc(src):
+            if src.startswith("_auto_ivc."):
                 out.setdefault(self.abs2prom_in[a], []).append(a)
         return out
+
+    def free_shape(self, name):
+        a = self.prom_inputs()[name][0]
+        return tuple((self.meta_out.get(a) or self.meta_in.get(a))["shape"])
+
+    def default_of(self, name):
+        a = self.prom_inputs()[name][0]
+        return np.array(self.prob.get_val(a))
 
     def _is_ivc(self, src_abs):
         comp_path = src_abs.rsplit(".", 1)[0]
@@ -85,6 +99,8 @@ class GroupSX:
         hints = dict(hints or {})
         for comp in self.comps:
             path = comp.pathname
+            if path.startswith("_auto_ivc"):
+                continue
             if isinstance(comp, om.IndepVarComp):
                 for n in comp._var_rel_names["output"]:
                     a = path + "." + n
